@@ -11,7 +11,7 @@ from ..model import AnalysisError, dotted, norm
 from ..report import Report
 from .. import sym
 from .common import own_nodes, returns
-from .symutil import S, branches, dnf, is_, mentions, sh, unobj
+from .symutil import S, arg, branches, dnf, is_, mentions, sh, unobj
 
 EXPLANATION = (
     "TYPECMP: a value whose declared type admits an array (np.ndarray / Sequence / ArrayLike) as well as a string mode literal is never compared with `==`/`!=` to a string literal in a truth context "
@@ -127,7 +127,36 @@ def run(E: Engine, rep: Report, tier: str) -> dict:
                 z = mz["Q_z"]
                 ok = ok or (z[0] == "elem" and is_(unobj(z[1]), "set(self.eigenstates) - {Q_one}", {"Q_one": mo["Q_one"]}) is not None and sym.contains(mo["Q_one"], sym.Pattern("self.infer_one_state()").term))
     rep.check(ok, "TABLE", "QutipState.bitstring_probabilities|one->1-others->0", "the one-state reads 1, every other eigenstate reads 0", "bitstring conversion changed: the key must replace the inferred one-state by '1' and every other eigenstate by '0'", E.where(bp))
-    rep.floor("TABLE", 8)
+    # every option of the configuration a backend accepts is consumed by that backend (an option that is accepted and
+    # then ignored -- e.g. the sampling rate -- makes the two backends emulate different things for the same input)
+    ecfg = E.cls("pulser.backend.config.EmulatorConfig")
+    legacy = E.cls("pulser_simulation.qutip_backend.QutipBackend")
+    legacy_reads = {n.attr for fs in legacy.methods.values() for f in fs for n in ast.walk(f.node) if isinstance(n, ast.Attribute) and isinstance(n.ctx, ast.Load)}
+    for _k, fld in P.dataclass_fields(ecfg):
+        if fld.name == "backend_options":
+            continue  # the container of the other options
+        rep.check(fld.name in legacy_reads, "TABLE", f"QutipBackend|config-option-consumed|{fld.name}", "the legacy backend reads this EmulatorConfig option", f"QutipBackend never reads EmulatorConfig.{fld.name}: the option is accepted and silently ignored (the emulation then differs from QutipBackendV2 / QutipEmulator given the same value)", E.where_mod(legacy.module.relpath, legacy.node))
+    v2c = E.cls("pulser_simulation.qutip_backend.QutipBackendV2")
+    v2_scope = [v2c, E.cls("pulser_simulation.qutip_config.QutipConfig"), E.cls("pulser.backend.config.EmulationConfig")]
+    v2_reads = {n.attr for c_ in v2_scope for fs in c_.methods.values() for f in fs if f.name != "__init__" for n in ast.walk(f.node) if isinstance(n, ast.Attribute) and isinstance(n.ctx, ast.Load)}
+    v2_reads |= {n.attr for fs in v2c.methods.values() for f in fs for n in ast.walk(f.node) if isinstance(n, ast.Attribute) and isinstance(n.ctx, ast.Load)}
+    opts = [a_.arg for q_ in ("pulser.backend.config.EmulationConfig.__init__", "pulser_simulation.qutip_config.QutipConfig.__init__") for a_ in E.fn(q_).node.args.kwonlyargs]
+    for o_ in sorted(set(opts)):
+        if o_ == "interaction_matrix":
+            rep.excepted("TABLE", f"QutipBackendV2|config-option-consumed|{o_}", "a custom interaction matrix is an option of the generic EmulationConfig that the QuTiP backend does not implement", E.where_mod(v2c.module.relpath, v2c.node))
+            continue
+        rep.check(o_ in v2_reads, "TABLE", f"QutipBackendV2|config-option-consumed|{o_}", "read by the V2 backend or by the configuration methods it calls", f"neither QutipBackendV2 nor the configuration's own methods read the option `{o_}`: it is accepted and silently ignored", E.where_mod(v2c.module.relpath, v2c.node))
+    # one time base in the V2 backend: relative evaluation times are scaled by the emulator's own total duration
+    # (which includes the modulation fall time), the same duration the Results object is built with
+    v2i = E.fn("pulser_simulation.qutip_backend.QutipBackendV2.__init__")
+    lg = S(E, v2i).calls("_get_legacy_evaluation_times")
+    if not lg:
+        raise AnalysisError("anchor: QutipBackendV2.__init__ no longer calls _get_legacy_evaluation_times")
+    for l in lg:
+        a0 = arg(l, 0, "total_duration_ns")
+        ok_d = a0 is not None and is_(unobj(a0), "Q_s.total_duration_ns") is not None and sym.contains(a0, ("attr", ("name", "self"), "_sim_obj"))
+        rep.check(ok_d, "TABLE", "QutipBackendV2.__init__|evaluation-times-scaled-by-emulator-duration", "relative times * self._sim_obj.total_duration_ns", f"QutipBackendV2 converts the relative evaluation times with `{sh(a0, 80) if a0 is not None else '?'}` instead of the emulator's total duration (self._sim_obj.total_duration_ns, which includes the modulation fall time): intermediate times are mislabelled and never stored when the output is modulated", E.where(v2i, l.node))
+    rep.floor("TABLE", 21)
 
     # ---------------------------------------------------------------- SIB
     s1 = E.fn("pulser_simulation.simresults.CoherentResults.sample_state")
@@ -152,6 +181,30 @@ def run(E: Engine, rep: Report, tier: str) -> dict:
             if m_ is not None:
                 got = (rate_name(m_["Q_neg"]), rate_name(m_["Q_pos"]))
                 ok = got == (neg, pos)
+        # one independent random number per measured bit: the draw has the shape of the flip-probability array
+        # (a (shots, 1) draw broadcast over the qudits would flip all bits of a shot together)
+        ok_shape = False
+        shape_seen = "no comparison of a random draw with the flip probabilities found"
+        for l in S(E, f).log:
+            if l.value is None:
+                continue
+            for t in sym.subterms(l.value):
+                if not (t[0] == "cmp" and t[1] == "Lt"):
+                    continue
+                for draw, fp in ((t[2], t[3]), (t[3], t[2])):
+                    if not any(x[0] == "call" and x[1][0] == "attr" and x[1][2] == "where" for x in sym.subterms(fp)):
+                        continue
+                    d_ = unobj(draw)
+                    if d_[0] != "call" or not (d_[1][0] == "attr" and d_[1][2] in ("uniform", "random", "random_sample", "rand")):
+                        continue
+                    size = dict(d_[3]).get("size") or (d_[2][0] if d_[2] else None)
+                    size = unobj(size) if size is not None else None
+                    shape_seen = sh(size, 80) if size is not None else "no size"
+                    if size is not None and size == ("attr", fp, "shape"):
+                        ok_shape = True
+                    elif size is not None and size[0] == "tuple" and len(size) == 3 and all(c_[0] != "const" for c_ in size[1:]):
+                        ok_shape = True
+        rep.check(ok_shape, "SIB", f"{f.short}|one-random-number-per-bit", "the uniform draw has the shape of the flip-probability array", f"{f.short}: the random numbers compared with the flip probabilities are drawn with size `{shape_seen}`: unless there is one independent number per shot and per qudit, the detection errors of one shot are correlated (all bits flip together)", E.where(f))
         rep.check(ok, "SIB", f"{f.short}|flip=where(bit==1,false-neg,false-pos)", f"a measured 1 flips with {neg}, a measured 0 with {pos}", f"{f.short}: np.where(bit == 1, {got[0] if got else '?'}, {got[1] if got else '?'}) -- a measured 1 must flip with the false-negative rate ({neg}) and a measured 0 with the false-positive rate ({pos})", E.where(f))
     scm = P.module("pulser_simulation.simconfig")
     diff = P.fold(scm, scm.assigns["_DIFF_NOISE_PARAMS"])
